@@ -371,7 +371,7 @@ def _minimize_unit(res, unit):
     for boxname in ("B_asym", "B_dec"):
         box = box_array(boxname)
         f = make_objective("twofunnel", box, False)
-        for kw in [dict(maxiter=n) for n in range(1, 5)] + [dict(maxfun=n) for n in (1, 5, 30, 80, 150)]:
+        for kw in [dict(maxiter=n) for n in range(0, 5)] + [dict(maxfun=n) for n in (1, 5, 30, 80, 150)]:
             steps = [0]
 
             def counted(self, _o=orig, _s=steps):
